@@ -2,8 +2,8 @@
 (***************************************************************************)
 (* A configuration is a record                                             *)
 (*   [ mac    : 6 bytes,                                                   *)
-(*     self   : "none" or a set of addresses (4- or 16-byte sequences),    *)
-(*     deny   : "none" or a set of addresses,                              *)
+(*     hasself: 0/1, self : set of addresses (4- or 16-byte sequences),    *)
+(*     hasdeny: 0/1, deny : set of addresses,                              *)
 (*     key    : an identifier of the SipHash key (uninterpreted),          *)
 (*     logger : "none" | "console" | "logfmt" ]                            *)
 (* Written from the statement of property C02, not from the code.          *)
@@ -13,8 +13,8 @@ EXTENDS Integers, Sequences, FiniteSets
 BROADCAST == << 255, 255, 255, 255, 255, 255 >>
 ALLNODES6 == << 51, 51, 0, 0, 0, 1 >>                   \* 33:33:00:00:00:01
 
-HasSelf(c) == c.self # "none"
-HasDeny(c) == c.deny # "none"
+HasSelf(c) == c.hasself = 1
+HasDeny(c) == c.hasdeny = 1
 
 (* RFC 1112 6.4: low-order 23 bits of the IPv4 address in 01:00:5e:00:00:00 *)
 McastMac4(a) == << 1, 0, 94, a[2] % 128, a[3], a[4] >>
